@@ -290,7 +290,8 @@ impl ValidatorParser {
                     if quote_char == '"' || quote_char == '\'' {
                         // Find the closing quote, handling escaped quotes
                         let rest = &after_eq[1..];
-                        let chars = rest.chars().enumerate();
+                        // Byte offsets, not character counts: the message is cut with &rest[..i]
+                        let chars = rest.char_indices();
                         let mut escaped = false;
 
                         for (i, ch) in chars {
